@@ -68,8 +68,8 @@ def sim_cases(ctx, pexpect, n):
             if o[0][0] == 3:
                 bad = 'a read was attempted that would have blocked'
             dist[{0: 'data', 1: 'eof', 2: 'timeout'}.get(o[0][0], 'data')] += 1
-        if which == 2 and c.socket.gettimeout() != 12.5:
-            bad = "the socket's own timeout was %r afterwards (it was 12.5)" % (c.socket.gettimeout(),)
+        if which == 2 and c._verif_timeout_changed is not None:
+            bad = "the socket's own timeout was %r after a read (the application had set it to %r before that read)" % (c._verif_timeout_changed[1], c._verif_timeout_changed[0])
         if bad and nhit < 3:
             nhit += 1
             ctx.hit('C06/sim-' + ['pty', 'fd', 'socket'][which], bad, {'transport': which, 'buf0': list(buf0), 'open': open0, 'alive': alive0,
